@@ -334,39 +334,45 @@ Proof. exact sl_after_end. Qed.
 Print Assumptions C05_synclogger_stopped.
 
 (* ---------------------------------------------------------------- SyncLogger under threads (SyncThreads.v) *)
-(* dispatcher (data callbacks, link-loss callback in two halves), user thread (connect/disconnect) and
-   consumer (next(): the _is_connected test, then inside get()) interleave arbitrarily. *)
+(* dispatcher (data callbacks, link-loss callback in two halves), user thread (connect in one go or step by
+   step, disconnect) and consumer (next(): the _is_connected test, then inside get()) interleave arbitrarily. *)
 
-(* For every state and every interleaving without connect(): yielded ++ still queued = queued before ++
-   delivered (own blocks, while connected).  So the iterator yields a PREFIX of what its own blocks
-   delivered during the session: each sample at most once, in order, nothing else. *)
+(* For every state and every interleaving without a (new) connect(): yielded ++ still queued = queued before
+   ++ enqueued, where enqueued = the data packets of the blocks whose data callback is registered.  So the
+   iterator yields a PREFIX of what its blocks delivered: each sample at most once, in order, nothing else. *)
 Theorem C05_threads_conservation : forall evs s,
-  forallb (fun e => negb (is_tconnect e)) evs = true ->
+  forallb (fun e => negb (clears_queue e)) evs = true ->
   tyields (snd (t_run s evs)) ++ qsamples (t_queue (fst (t_run s evs)))
-    = qsamples (t_queue s) ++ tdelivered (t_own s) (t_conn s) evs.
+    = qsamples (t_queue s) ++ tenq s evs.
 Proof. exact t_conservation. Qed.
 Print Assumptions C05_threads_conservation.
 
-(* One session, whatever happened to the object before (earlier sessions, unread samples, sentinels): after
-   connect() nothing of an earlier run is yielded. *)
-Theorem C05_threads_session : forall s0 evs, t_conn s0 = false ->
-  forallb (fun e => negb (is_tconnect e)) evs = true ->
-  let r := t_run s0 (TConnect :: evs) in
-  tyields (snd r) ++ qsamples (t_queue (fst r)) = tdelivered (t_own s0) true evs.
+(* One session, whatever happened to the object before: connect() (at once, or its first step) empties the
+   queue -- nothing of an earlier run is yielded. *)
+Theorem C05_threads_session : forall s0 e evs, clears_queue e = true -> snd (t_step s0 e) = ONone ->
+  forallb (fun e => negb (clears_queue e)) evs = true ->
+  let r := t_run s0 (e :: evs) in
+  tyields (snd r) ++ qsamples (t_queue (fst r)) = tenq (fst (t_step s0 e)) evs.
 Proof. exact t_session. Qed.
 Print Assumptions C05_threads_session.
 
-(* never a sample of another block / another logger's configuration *)
-Theorem C05_threads_nothing_foreign : forall own evs conn k, In k (tdelivered own conn evs) ->
-  exists c, existsb (Z.eqb c) own = true /\ In (TSample c k) evs.
-Proof. exact tdelivered_own. Qed.
+(* never a sample of another block / another logger's configuration: data callbacks are only ever
+   registered on the logger's own configurations (invariant), and only their packets are enqueued *)
+Theorem C05_threads_nothing_foreign : forall evs s k, dreg_own s -> In k (tenq s evs) ->
+  exists c, owns s c = true /\ In (TSample c k) evs.
+Proof. exact tenq_own. Qed.
 Print Assumptions C05_threads_nothing_foreign.
 
-(* Liveness invariant, for every interleaving in which disconnect() is not called while ... (no explicit
-   disconnect at all): a consumer inside get() always has the connection up, or a sentinel on its way, or
-   something to take.  In particular it is never stuck after a link loss. *)
+Theorem C05_threads_own_registrations_invariant : forall s e, dreg_own s ->
+  dreg_own (fst (t_step s e)) /\ t_own (fst (t_step s e)) = t_own s.
+Proof. exact t_step_dreg_own. Qed.
+Print Assumptions C05_threads_own_registrations_invariant.
+
+(* Liveness invariant (no explicit disconnect, connect() in one go): a consumer inside get() always has the
+   connection up, or a sentinel on its way, or something to take; it is never stuck after a link loss. *)
 Theorem C05_threads_live : forall evs s,
-  forallb (fun e => negb (is_tdisconnect e)) evs = true -> live s -> live (fst (t_run s evs)).
+  forallb (fun e => negb (is_tdisconnect e) && negb (is_tbegin e) && negb (is_tconnect e)) evs = true ->
+  live s -> live (fst (t_run s evs)).
 Proof. exact t_run_live. Qed.
 Print Assumptions C05_threads_live.
 
@@ -376,16 +382,50 @@ Theorem C05_threads_terminates_after_link_loss : forall s, live s -> t_conn s = 
 Proof. exact t_terminates_after_link_loss. Qed.
 Print Assumptions C05_threads_terminates_after_link_loss.
 
+(* LINK LOSS AT ANY POINT OF connect(): connect() step by step over its n configurations, the link lost
+   after j of them, for EVERY j <= n (between two steps, or inside the last send of step j), the rest of
+   connect() and the second half of the link-loss callback, then the consumer iterates: it gets
+   StopIteration, it does not block -- because _disconnected is registered before the first step that can
+   lose the link.  (j = n, or the configurations have been accepted before: the remaining turns do not
+   raise; the other case is the next theorem.) *)
+Theorem C05_threads_loss_during_connect_terminates : forall s n j,
+  fresh s -> n = length (t_own s) -> (j <= n)%nat -> j = n \/ allknown s ->
+  last (snd (t_run s (connect_with_loss n j))) ONone = OStop /\
+  t_cons (fst (t_run s (connect_with_loss n j))) = CIdle.
+Proof. exact loss_during_connect_terminates. Qed.
+Print Assumptions C05_threads_loss_during_connect_terminates.
+
+(* the link lost before a configuration that was never accepted: its start() raises AttributeError, connect()
+   ends without _is_connected, next() raises StopIteration at once *)
+Theorem C05_threads_loss_before_unknown_config : forall early s j c,
+  t_cpos s = Some j -> nth_error (t_own s) j = Some c ->
+  t_link s = false -> memz c (t_known s) = false -> t_conn s = false -> t_cons s = CIdle ->
+  let s1 := fst (t_stepg early s TConnCfg) in
+  snd (t_stepg early s TConnCfg) = ORaiseAttr /\ t_cpos s1 = None /\ t_conn s1 = false /\
+  t_stepg early s1 TNext = (s1, OStop).
+Proof. exact loss_before_unknown_config. Qed.
+Print Assumptions C05_threads_loss_before_unknown_config.
+
+(* refutation of the variant that registers _disconnected AFTER the loop (seeded/C05-i): for every such
+   position of the loss the consumer ends inside get() with an empty queue, no sentinel on its way, and a
+   logger that believes it is connected *)
+Theorem C05_threads_late_registration_refuted : forall s n j,
+  fresh s -> n = length (t_own s) -> (j <= n)%nat -> j = n \/ allknown s ->
+  let s' := fst (t_rung false s (connect_with_loss n j)) in
+  last (snd (t_rung false s (connect_with_loss n j))) ONone = ONoop /\
+  t_cons s' = CInGet /\ t_queue s' = [] /\ t_pend s' = 0%nat /\ t_conn s' = true.
+Proof. exact late_registration_blocks. Qed.
+Print Assumptions C05_threads_late_registration_refuted.
+
 (* OBSERVATION, stated as a theorem about the model of the unchanged code: disconnect() from another thread
    while the consumer is inside get() on an empty queue leaves it blocked until a new connect() *)
 Theorem C05_threads_explicit_disconnect_can_block : forall evs s, stuck s ->
-  forallb (fun e => negb (is_tconnect e)) evs = true ->
-  fst (t_run s evs) = s /\ tyields (snd (t_run s evs)) = [].
+  forallb (fun e => negb (clears_queue e)) evs = true ->
+  stuck (fst (t_run s evs)) /\ tyields (snd (t_run s evs)) = [].
 Proof. exact t_stuck_for_ever. Qed.
 Print Assumptions C05_threads_explicit_disconnect_can_block.
 
-(* several SyncLoggers on one Crazyflie: each one sees exactly its own projection of the system run, so
-   the theorems above hold for every logger of the system *)
+(* several SyncLoggers on one Crazyflie: each one sees exactly its own projection of the system run *)
 Theorem C05_threads_system_projection : forall evs ls i s, nth_error ls i = Some s ->
   nth_error (fst (sys_run ls evs)) i = Some (fst (t_run s (concat (map (proj i) evs)))).
 Proof. exact sys_projection. Qed.
